@@ -125,13 +125,43 @@ def _prog_chunk(chunk):
     return len(chunk), nt, fails
 
 
+def _rand_chunk(chunk):
+    """random well-typed expressions printed with minimal parentheses against the reference evaluator"""
+    from bounded import exprgen
+    fails, nt = [], 0
+    for seed in chunk:
+        rnd = random.Random(seed)
+        items = [exprgen.expression(rnd) for _ in range(60)]
+        lines = [f"message('K{i}', {exprgen.show(t)})" for i, (t, v) in enumerate(items)]
+        rc, out, tail = run_program(lines)
+        if rc != 0:
+            # find the offending expression by bisection of the program
+            bad = None
+            for i, (t, v) in enumerate(items):
+                rc1, _o, tl = run_program([lines[i]])
+                if rc1 != 0:
+                    bad = (exprgen.show(t), tl)
+                    break
+            fails.append({'case': {'generator_seed': seed, 'expression': bad[0] if bad else None}, 'stage': 'run', 'detail': 'a well-typed expression was rejected: ' + (bad[1][-200:] if bad else tail[-200:])})
+            continue
+        for i, (t, v) in enumerate(items):
+            nt += 1
+            if out.get(f'K{i}') != fmt(v):
+                fails.append({'case': {'generator_seed': seed, 'expression': exprgen.show(t)}, 'stage': 'value', 'detail': f'meson computes {out.get("K%d" % i)!r}, the language reference gives {fmt(v)!r}'})
+    return len(chunk), nt, fails
+
+
 def run(REG, tier, seed, jobs):
     rnd = random.Random(seed)
     ex = gen_exprs(rnd, 0)
     tasks = [('exprs', ex[i:i + 40]) for i in range(0, len(ex), 40)] + [('values', None)] + [('reject', p) for p in REJECTED]
     ev, nt, fails = pmap(_prog_chunk, chunked(iter(tasks), 1), jobs)
-    return {'parts': [{'name': 'C01/bounded/programs-vs-language-reference', 'function': 'meson setup --backend=none (real interpreter)', 'bound': f'{len(ex)} expressions (all quotient/modulo sign combinations over {INTS}, all indices of a 4-array, precedence, logic, in/not in, escapes), one value-semantics program (12 checks: aliasing with +=, foreach break/continue, short circuit, get_variable), {len(REJECTED)} programs that must be rejected',
+    m = 24 if tier == 'quick' else 400
+    ev2, nt2, fails2 = pmap(_rand_chunk, chunked(iter([seed * 6700417 + i for i in range(m)]), 1), jobs)
+    rpart = {'name': 'C01/bounded/random-expressions-vs-reference-evaluator', 'function': 'meson setup --backend=none (real parser and interpreter)', 'bound': f'{m} programs x 60 random well-typed expressions of depth <= 4 (integer arithmetic with floor division and modulo, unary minus, comparisons, and / or / not, string concatenation and equality, array index / in / not in, a ternary at the top), printed with minimal parentheses',
+             'evaluations': ev2, 'distinct_nontrivial': nt2, 'rule': 'every expression', 'exhaustive': False, 'failures': fails2}
+    return {'parts': [rpart, {'name': 'C01/bounded/programs-vs-language-reference', 'function': 'meson setup --backend=none (real interpreter)', 'bound': f'{len(ex)} expressions (all quotient/modulo sign combinations over {INTS}, all indices of a 4-array, precedence, logic, in/not in, escapes), one value-semantics program (12 checks: aliasing with +=, foreach break/continue, short circuit, get_variable), {len(REJECTED)} programs that must be rejected',
                        'evaluations': ev, 'distinct_nontrivial': nt, 'rule': 'each expression / check / rejected program counts once', 'exhaustive': False, 'failures': fails}]}
 
 
-CHECKS = {}
+CHECKS = {'C01/bounded/random-expressions-vs-reference-evaluator': (_rand_chunk, lambda c: c['generator_seed'])}
